@@ -139,7 +139,7 @@ def links_diff_html(a_text, b_text, a_headers=None, b_headers=None,
 
     return {
         'change_count': diff['change_count'],
-        'diff': soup.prettify(formatter=None)
+        'diff': soup.prettify()
     }
 
 
@@ -418,6 +418,22 @@ def _html_for_text_diff(diff):
     return ''.join(map(_html_for_dmp_operation, diff))
 
 
+def _nodes_for_text_diff(soup, diff):
+    """
+    Create Beautiful Soup nodes (strings and `<ins>`/`<del>` tags) for a text
+    diff, so the text in it gets escaped like any other text when serialized.
+    """
+    nodes = []
+    for code, text in diff:
+        if code == -1:
+            nodes.append(_tag(soup, 'del', {'class': 'wm-diff'}, text))
+        elif code == 1:
+            nodes.append(_tag(soup, 'ins', {'class': 'wm-diff'}, text))
+        else:
+            nodes.append(text)
+    return nodes
+
+
 def _tag(soup, name, attributes=None, *children):
     """
     Build tags in a quicker, more composable way. Also lets you use 'class'
@@ -470,11 +486,13 @@ def _table_row_for_link(soup, change_type, link):
     row.append(text_cell)
     if change_type == 100:
         text_insertions = filter(not_deleted, link['text'])
-        text_cell.append(_html_for_text_diff(text_insertions))
+        for node in _nodes_for_text_diff(soup, text_insertions):
+            text_cell.append(node)
         if len(link['text']) != 1:
             text_cell.append(tag('br'))
             text_deletions = filter(not_inserted, link['text'])
-            text_cell.append(_html_for_text_diff(text_deletions))
+            for node in _nodes_for_text_diff(soup, text_deletions):
+                text_cell.append(node)
     else:
         text_cell.append(link['text'])
 
@@ -482,16 +500,16 @@ def _table_row_for_link(soup, change_type, link):
     row.append(href_cell)
     if change_type == 100:
         href_insertions = filter(not_deleted, link['href'])
-        url_text = _html_for_text_diff(href_insertions)
+        url_nodes = _nodes_for_text_diff(soup, href_insertions)
         url = link['hrefs'][1]
-        href_cell.append(tag('a', {'href': url}, f'({url_text})'))
+        href_cell.append(tag('a', {'href': url}, '(', *url_nodes, ')'))
 
         if link['hrefs'][0] != link['hrefs'][1]:
             href_cell.append(tag('br'))
             href_deletions = filter(not_inserted, link['href'])
-            url_text = _html_for_text_diff(href_deletions)
+            url_nodes = _nodes_for_text_diff(soup, href_deletions)
             url = link['hrefs'][0]
-            href_cell.append(tag('a', {'href': url}, f'({url_text})'))
+            href_cell.append(tag('a', {'href': url}, '(', *url_nodes, ')'))
     else:
         url = link['href']
         href_cell.append(tag('a', {'href': url}, f'({url})'))
